@@ -614,14 +614,18 @@ def execute(arg):
     if pair_sync is not None:
         # two lazy results that exist at the same time are each still the in-memory answer of their own dataset
         for which, got, base, want in pair_refs:
-            dj = cmp.compare(want, got, rtol=rtol, atol=atol)
-            if dj and cls == "cancel" and dj[0] == "nan-position" and _only_domain_edge_nans(want, got, rtol, atol):
+            # each result is judged by the tolerance class of *its own* operation and the precision of *its own* data (the
+            # second lazy result may come from the same method with other options, e.g. ptm5 with interpolation)
+            cls_w = cls if which == "first" else O.tol_class(plan.get("pair_op") or op)
+            rtol_w, atol_w = (rtol, atol) if which == "first" else _tols(cls_w, plan["pair"].get("dtype", "float64"))
+            dj = cmp.compare(want, got, rtol=rtol_w, atol=atol_w)
+            if dj and cls_w == "cancel" and dj[0] == "nan-position" and _only_domain_edge_nans(want, got, rtol_w, atol_w):
                 sim.count("ill_conditioned_skipped")
                 dj = None
-            if dj and cls != "exact" and dj[0] in ("value", "nan-position"):
+            if dj and cls_w != "exact" and dj[0] in ("value", "nan-position"):
                 try:
-                    for dsv in _variants(base, 6 if cls == "fit" else 2):
-                        if cmp.compare(want, cmp.canon(O.apply_op(dsv, op if which == "first" else (plan.get("pair_op") or op))), rtol=rtol, atol=atol):
+                    for dsv in _variants(base, 6 if cls_w == "fit" else 2):
+                        if cmp.compare(want, cmp.canon(O.apply_op(dsv, op if which == "first" else (plan.get("pair_op") or op))), rtol=rtol_w, atol=atol_w):
                             sim.count("ill_conditioned_skipped")
                             dj = None
                             break
